@@ -8,11 +8,11 @@ props = [json.loads(l) for l in open(os.path.join(HERE, "properties.jsonl"))]
 
 # id -> (level, technique, text, note, design_ref)
 BUILT = {
- "C01": ("exploration", "bounded-exhaustive enumeration of expression trees x literal alphabet against a BigRational reference evaluator, two independent renderings",
+ "C01": ("exploration", "bounded-exhaustive enumeration of expression trees x literal alphabet against a BigRational reference evaluator, three independent renderings (fully / minimally parenthesised, alternative token spellings)",
          "Every expression tree up to 2 (quick) / 3 (thorough) operator nodes over all 14 operators and a boundary-value literal alphabet is evaluated by the real evaluator and by an independent exact evaluator; exhaustive within the stated alphabet, nothing sampled.",
          "num-bigint/num-rational are trusted; literals outside the alphabet and results above 40000 bits are out of reach", "3/C01"),
  "C02": ("exploration", "bounded-exhaustive enumeration of operator applications over one representative per dimensionality (all ordered pairs) and every unit, against an own exponent-vector algebra",
-         "All ordered pairs of dimensionality representatives under 10 binary operators, 27 unary/function applications over every unit, and depth-2 trees, judged by an independent dimensional algebra over the registry dump.",
+         "All ordered pairs of dimensionality representatives under 10 binary operators with zero and non-zero coefficients, 27 unary/function applications over every unit, and depth-2 trees, judged by an independent dimensional algebra over the registry dump.",
          "registry dump trusted (validated by C08); unjudged function/dimension combinations are recorded only", "3/C02"),
  "C03": ("exploration", "exhaustive enumeration of all ordered conformable unit pairs, unit x other-dimensionality refusals, prefix/plural targets and compound targets against exact rational reference",
          "Every ordered pair of conformable registry units (641k), every unit against every other dimensionality, prefixed/plural targets, compound source/target shapes (incl. zero-valued targets and constants 1e-400/1e400 outside the f64 range) and powers of prefixed targets are converted by the real code and compared exactly with v/t from the registry dump; suggestions of conformance errors are parsed back and checked.",
@@ -20,11 +20,11 @@ BUILT = {
  "C05": ("exploration", "bounded-exhaustive enumeration of rationals x bases x digit modes, printed numerals read back by an independent numeral reader",
          "All p/q up to a bound plus boundary families in every base and digits mode are printed by the real formatter and read back by an independent reader that decides exact/approximate denotation.",
          "values beyond the families (other huge periods) are out of reach; exponent is read as decimal scaling by base^k", "3/C05"),
- "C07": ("exploration", "exhaustive enumeration of every prefix+name[+s] string of the bundled database (2 configurations) all 2^11 sub-databases of a colliding pool, and load histories (base database + every subset / ordered pair of 7 redefinitions as further files) against an independent resolver",
+ "C07": ("exploration", "exhaustive enumeration of every prefix+name[+s] string of the bundled database (2 configurations) all 2^12 sub-databases of a colliding pool, and load histories (base database + every subset / ordered pair of 7 redefinitions as further files) against an independent resolver",
          "Every one of ~1.1M prefix+unit[+s] names is looked up on two independent loads and compared with a reference resolver; canonicalisation must preserve the denotation; databases built by several loads on one Context are enumerated as histories. One open known finding (stale alias after a later load redefines its target).",
          "competing prefix splits are all accepted (statement does not rank them)", "3/C07"),
  "C08": ("exploration", "exhaustive per-entry fixed-point evaluation of every stored definition and every prefix line in both configurations plus whole-database invariants",
-         "Each of ~2500 definitions is re-evaluated in the loaded context and compared with the stored value, in both feature configurations; each of the 118 prefix lines is re-read from the bundled text and compared with the prefix table; each of ~2400 unit lines is re-read as text by an own line splitter, parsed by the query parser (not the loader's) and compared with the stored value; load output is captured at fd level.",
+         "Each of ~2500 definitions is re-evaluated in the loaded context and compared with the stored value, in both feature configurations; each of the 118 prefix lines is re-read from the bundled text and compared with the prefix table; each of 179 quantity lines is re-derived by an own dimensional evaluator; each of ~2400 unit lines is re-read as text by an own line splitter, parsed by the query parser (not the loader's) and compared with the stored value; load output is captured at fd level.",
          "Debug output shows all registry fields", "3/C08"),
  "C09": ("exploration", "exhaustive enumeration of ordered unit lists (length 2-6) x boundary rational values per dimensionality, checked against the statement's four clauses",
          "All ordered lists with repetition over up to 6 units of every dimensionality with >=2 units, for 11-13 values each, plus every non-conformable position and 151 durations, near-multiple values (k +- e) a for every group.",
@@ -39,11 +39,11 @@ BUILT = {
  "C04": ("exploration", "bounded-exhaustive input-space enumeration (token soups, single-deviation mutations, ladders, all short strings, grammar trees) on the real evaluator in watchdog-guarded worker processes, plus the real CLI binary",
          "Every token sequence up to length 3/4 over a 68-token alphabet, every single-character deviation of every test/manual query, depth/length ladders to 500 characters, all 1-2(3)-character strings, small expression trees (also as conversion targets), unit powers composed from small exponents and date literals with boundary years are evaluated and rendered in all three output forms under catch_unwind, an 8 MiB stack, a 2 GiB address space and a per-case watchdog; the same inputs are fed to the real `rink -f -`.",
          "inputs outside the alphabets (longer soups, multi-deviation mutations) are out of reach; expensive inputs are classified by a static textual rule", "3/C04"),
- "C06": ("exploration", "exhaustive enumeration of every unit x SI-prefix-boundary magnitudes x powers, all base-unit products, conversion-target shapes, digit/base modes and substances; printed parts read back with an independent numeral reader and Context::lookup",
+ "C06": ("exploration", "exhaustive enumeration of every unit x SI-prefix-boundary magnitudes x powers, all base-unit products, conversion-target shapes, digit/base modes, substances and a second CGS-style database; printed parts read back with an independent numeral reader and Context::lookup",
          "Every numeric reply over the swept space is decomposed into numeral, factor, divfactor and printed unit names; numeral x factor x product of the names (read back the way rink reads names) must equal the quantity computed from the registry dump.",
          "temperature-scale replies are C10's; float-valued units skipped", "3/C06"),
  "C12": ("exploration", "exhaustive enumeration of all 5040 permutations of dependency-closed definition subsets, bundled-database reorders/rotations, and all file-split assignments through the real binary, comparing whole-registry dumps",
-         "All permutations of dependency-closed 7-subsets of a 22-definition pool, all 5040 text orders of 7 snippets x 36 splits into files parsed as files, the bundled database reversed/sorted/dependency-reversed/rotated, and a 6-definition extension set split over two files in all assignments x 4 file endings (real `rink --dump`) must yield byte-identical registry dumps and identical error multisets.",
+         "All permutations of dependency-closed 7-subsets of a 24-definition pool, all 5040 text orders of 7 snippets x 36 splits into files parsed as files, the bundled database reversed/sorted/dependency-reversed/rotated, and a 6-definition extension set split over two files in all assignments x 4 file endings (real `rink --dump`) must yield byte-identical registry dumps and identical error multisets.",
          "duplicated names in the shipped file are reduced to their last occurrence first (premise of the statement)", "3/C12"),
  "C13": ("exploration", "deviation-bounded exhaustive enumeration of file mutations, definition token soups, dependency cycles/chains, malformed substances, JSON truncations/edits and date-pattern soups against the real loaders under watchdog",
          "0 and every single deviation of the bundled files, every definitions file of <=4/5 tokens, cycles of length 1..5000 through eleven namespace shapes, chains to 10000, zero-valued substance properties in 10 representations, exponent boundary values in definitions, every truncation and field edit of the currency JSON: the load must terminate without panic/abort, report what the harness can prove is a problem, and leave a usable context.",
@@ -64,7 +64,7 @@ BUILT = {
  "C18": ("fault_enumeration", "exhaustive enumeration of fault sequences (7 request kinds, length <= 2/4, two gap lengths) and idle-gap sequences (normal / slow-but-legal / long idle / short idle) against the real Sandbox with real child processes, one parent process per sequence",
          "Every sequence over {normal, panic, time-limit overrun, memory exhaustion, child exit, large payload} up to the length bound, followed by two normal requests, at two inter-request gaps, and every sequence of legal requests and idle pauses around the time limit, is executed against the real parent/child code; replies are matched to requests by unique operands and process ids are tracked.",
          "real time: 700 ms service limit, anomalies re-run once before being believed; sequences longer than the bound are out of reach", "3/C18"),
- "C19": ("model_checking", "explicit-state BFS over allocator operation histories on the real Alloc (sequential) plus loom exploration of every interleaving of 2-3 threads on the allocator source derived textually from the repository file",
+ "C19": ("model_checking", "explicit-state BFS over allocator operation histories on the real Alloc with byte- and 8-aligned layouts (sequential) plus loom exploration of every interleaving of 2-3 threads on the allocator source derived textually from the repository file",
          "Sequential: BFS with state canonicalisation to depth 6 (thorough 10) where every transition is replayed on a fresh real allocator against an integer byte counter. Concurrent: 448 harness bodies (2 threads x 1-2 ops unbounded, 3 threads x 1 op at preemption bound 2 / unbounded) under loom on the repository's own allocator text compiled against loom atomics, with a call/return timeline oracle for usage, limit and peak.",
          "loom's model of the C11 memory model; the derived source differs from the repository file only in its import header and `const fn`; more than 3 threads and longer per-thread sequences are out of reach", "3/C19"),
  "C20": ("fault_enumeration", "exhaustive enumeration of prior cache state x server behaviour x entry point on the real rink binary, and of every crash point (SIGKILL injected by strace before each file-system syscall on the cache directory)",
